@@ -93,6 +93,8 @@ func c04(r *core.Run) {
 		r.Rule("R12", "no queued request is dropped or handled twice inside a group (shared with C02.Q1 / Q2): a work item's callback queue is only ever tail-appended with the submitted callback and read by len / index in the drain loop, whose counter starts at 0, is compared with the re-loaded length and advances by one per call; a drain that re-slices the queue while callbacks are still being read from its backing array lets a later append overwrite a pending request's callback (never answered) with another one (answered twice)", 6)
 		c02GroupQueue(r, "R12", sa, root)
 		c02Drain(r, "R12", sa)
+		r.Rule("R14", "replies survive a reconnect: the library never configures its own connection to refuse publishes while the client is reconnecting - no nats.ReconnectBufSize with a negative constant (in nats.go a negative size is no buffer: every Publish made while reconnecting fails, and reply only logs the error after marking the request as replied), no negative constant stored to Options.ReconnectBufSize, and no nats.NoReconnect", 1)
+		c04ConnectionKeepsBuffering(r, "R14")
 		r.Rule("R13", "somebody answers (shared with C03.S4): the number of workers serve starts is at least one - every store to the worker-count member writes a positive constant or a value tested to be positive; with zero workers every request is queued and never handled", 2)
 		if af, ok := workerCountField(p, sa); ok {
 			c03WorkerCountPositive(r, "R13", af)
@@ -1127,4 +1129,67 @@ func c04ReplyFunnel(r *core.Run, rule, tn string, models map[string]*replyModel,
 	}
 	// the true edge must not publish: every Publish is dominated by !flag (covered above via store dominance)
 
+}
+
+// c04ConnectionKeepsBuffering is C04.R14: the options the library itself
+// hands to the NATS client.
+func c04ConnectionKeepsBuffering(r *core.Run, rule string) {
+	p := r.P
+	isNats := func(pk *ssa.Package) bool {
+		return pk != nil && strings.HasSuffix(pk.Pkg.Path(), "nats-io/nats.go")
+	}
+	nConn, nOpt := 0, 0
+	for _, fn := range p.FuncsOfPkg("") {
+		for _, b := range fn.Blocks {
+			for _, in := range b.Instrs {
+				switch x := in.(type) {
+				case ssa.CallInstruction:
+					cal := x.Common().StaticCallee()
+					if cal == nil || !isNats(cal.Pkg) {
+						continue
+					}
+					switch cal.Name() {
+					case "Connect":
+						nConn++
+					case "NoReconnect":
+						nOpt++
+						r.Bad(rule, core.FuncName(fn), "option:NoReconnect", p.InstrPos(x), "the library's own connection is told not to reconnect: after a momentary disconnect every later reply is dropped")
+					case "ReconnectBufSize":
+						nOpt++
+						if len(x.Common().Args) == 1 {
+							if k, ok := core.ConstInt(x.Common().Args[0]); ok && k < 0 {
+								r.Bad(rule, core.FuncName(fn), "option:ReconnectBufSize<0", p.InstrPos(x), "nats.ReconnectBufSize with a negative size disables the reconnect buffer (it does not make it unlimited): every Publish made while the client is reconnecting fails with ErrReconnectBufExceeded; reply has already marked the request as replied and only logs the error, so a request whose handler finishes during the reconnect gets no response at all")
+							}
+						}
+					default:
+						if cal.Signature.Results().Len() == 1 && strings.HasSuffix(core.TypeName(cal.Signature.Results().At(0).Type()), ".Option") {
+							nOpt++
+						}
+					}
+				case *ssa.Store:
+					fa, ok := x.Addr.(*ssa.FieldAddr)
+					if !ok {
+						continue
+					}
+					var bt types.Type = fa.X.Type()
+					if pt, isP := bt.Underlying().(*types.Pointer); isP {
+						bt = pt.Elem()
+					}
+					st, ok := bt.Underlying().(*types.Struct)
+					if !ok || st.Field(fa.Field).Name() != "ReconnectBufSize" || !strings.HasSuffix(core.TypeName(bt), "nats.Options") {
+						continue
+					}
+					nOpt++
+					if k, ok := core.ConstInt(x.Val); ok && k < 0 {
+						r.Bad(rule, core.FuncName(fn), "option:ReconnectBufSize<0", p.InstrPos(x), "Options.ReconnectBufSize is set to a negative size, which disables the reconnect buffer: every reply published while the client is reconnecting is lost")
+					}
+				}
+			}
+		}
+	}
+	if nConn == 0 {
+		r.Unres(rule, "nats.Connect", "the library does not connect on its own (rule anchor lost)")
+		return
+	}
+	r.OK(rule, "connection-options", "reconnect-buffer-kept", "-", fmt.Sprintf("%d nats.Connect call(s), %d option(s) inspected: none disables reconnecting or the reconnect buffer", nConn, nOpt))
 }
